@@ -14,6 +14,7 @@ use serde_json::{Value, json};
 use crate::common::*;
 use crate::hostsim::{self, SchedMode, WorldObs};
 use crate::pipeline;
+use crate::realos;
 use crate::rng::{Rng, fnv, fnv_u64};
 
 pub struct C16;
@@ -543,6 +544,9 @@ impl Engine for C16 {
     }
 
     fn generate(&self, seed: u64, i: u64, tier: Tier) -> Value {
+        if i % 400 == 399 {
+            return gen_real(&mut Rng::stream(seed, self.tag() ^ 0x4ea1, i));
+        }
         // several schedules per scenario: the scenario stream depends on i / k only
         let per = Self::schedules_per_scenario(tier);
         let mut rs = Rng::stream(seed, self.tag(), i / per);
@@ -555,6 +559,9 @@ impl Engine for C16 {
     }
 
     fn execute(&self, case: &Value) -> RunResult {
+        if case["kind"] == "real" {
+            return exec_real(case);
+        }
         let mut res = RunResult::new();
         let keep_log = case["keep_log"].as_bool().unwrap_or(false);
         let (seen, w, run) = C16::run_once(case, keep_log);
@@ -652,6 +659,9 @@ impl Engine for C16 {
     }
 
     fn concretise(&self, case: &Value, r: &RunResult, final_: bool) -> Value {
+        if case["kind"] == "real" {
+            return case.clone();
+        }
         crate::hostsim::concretise_schedule(case, r, final_)
     }
 
@@ -662,6 +672,9 @@ impl Engine for C16 {
             c[k] = x;
             c
         };
+        if case["kind"] == "real" {
+            return v;
+        }
         let script = case["script"].as_array().unwrap();
         for i in 0..script.len() {
             if script.len() > 1 {
@@ -767,4 +780,129 @@ impl Engine for C16 {
                         "src/process.rs validate", "runtime dispatch eval_process_command_call / eval_process_result_call, lexer/parser/resolver (script mode)"],
                "stub": ["child process, pipes, kill/wait/try_wait, clock, thread scheduling (simulated host + own shuttle Scheduler)"]})
     }
+}
+
+// ------------------------------------------------------------------ real operating system
+
+fn gen_real(r: &mut Rng) -> Value {
+    // outcomes that do not depend on timing margins
+    let what = r.pick(&["complete", "complete", "complete", "limit", "utf8", "timeout", "nonzero"]);
+    let n1 = r.pick(&[0u64, 1, 100, 4096, 65_536, 65_537, 200_000]);
+    let n2 = r.pick(&[0u64, 1, 7, 70_000]);
+    json!({"kind": "real", "what": what, "out": n1, "err": n2,
+           "out_kind": r.pick(&["a", "m"]), "err_pol": r.pick(&["capture", "null"]),
+           "exit": r.pick(&[0u64, 0, 3, 255]), "stdin": r.pick(&[0u64, 0, 10, 100_000])})
+}
+
+/// The un-hooked `naija` binary captures the output of the real helper child through real pipes
+/// and threads. Validates the simulated host's model (EOF on exit, kill closes pipes, ...).
+fn exec_real(case: &Value) -> RunResult {
+    let mut res = RunResult::new();
+    res.trace_hash = fnv(0, &serde_json::to_vec(case).unwrap());
+    res.nontrivial = true;
+    res.count("real_os_cross_checks", 1);
+    let helper = match realos::realchild_bin() {
+        Ok(h) => h,
+        Err(m) => return res.violation("harness", m),
+    };
+    let what = case["what"].as_str().unwrap_or("complete");
+    res.count(&format!("real_{what}"), 1);
+    let dir = realos::tmp_dir();
+    let marker = format!("{dir}/pid.marker");
+    let _ = std::fs::remove_file(&marker);
+    let (n1, n2) = (case["out"].as_u64().unwrap() as usize, case["err"].as_u64().unwrap() as usize);
+    let okind = case["out_kind"].as_str().unwrap_or("a");
+    let exit = case["exit"].as_u64().unwrap_or(0);
+    let mut ops: Vec<String> = vec![];
+    if case["stdin"].as_u64().unwrap_or(0) > 0 {
+        ops.push("drain".into());
+    }
+    let mut want_out = stream_bytes(1, 0, n1, if okind == "m" { "multi" } else { "ascii" });
+    match what {
+        "limit" => {
+            // more than the default 1 MiB capture limit
+            ops.push(format!("out:{}:a", (1 << 20) + 1 + n1));
+            ops.push("sleep:20000".into());
+        }
+        "utf8" => {
+            ops.push(format!("out:{}:b", n1.max(1)));
+        }
+        "timeout" => {
+            ops.push(format!("out:{n1}:{okind}"));
+            ops.push("sleep:30000".into());
+        }
+        _ => {
+            ops.push(format!("out:{n1}:{okind}"));
+            ops.push(format!("err:{n2}:a"));
+            ops.push(format!("exit:{}", if what == "nonzero" { exit.max(1) } else { 0 }));
+        }
+    }
+    if what == "limit" || what == "utf8" {
+        want_out.clear();
+    }
+    let mut src = format!("make c get command({})\nc.arg(\"play\")\n", crate::c15::strlit(&helper));
+    for o in &ops {
+        src += &format!("c.arg(\"{o}\")\n");
+    }
+    src += &format!("c.env(\"VK_MARKER\", {})\n", crate::c15::strlit(&marker));
+    src += "c.stdout_capture()\n";
+    src += &format!("c.stderr_{}()\n", case["err_pol"].as_str().unwrap_or("null"));
+    let stdin_n = case["stdin"].as_u64().unwrap_or(0) as usize;
+    if stdin_n > 0 {
+        src += &format!("c.stdin_text(\"{}\")\n", "i".repeat(stdin_n));
+    } else {
+        src += "c.stdin_null()\n";
+    }
+    if what == "timeout" {
+        src += "c.timeout_ms(150)\n";
+    }
+    src += "make r get c.run()\nshout(r.exit_code())\nshout(r.stderr())\nshout(r.stdout())\n";
+    let t0 = std::time::Instant::now();
+    let run = match realos::run_naija(&src, None) {
+        Ok(r) => r,
+        Err(m) => return res.violation("harness", m),
+    };
+    let took = t0.elapsed();
+    let out = run.stdout;
+    let text = String::from_utf8_lossy(&out).into_owned();
+    // the helper sleeps 20-30 s after its output in these two cases: a run() that takes anywhere
+    // near that long did not kill it (150 ms timeout / immediate overflow; the margin is > 60x)
+    if (what == "timeout" || what == "limit") && took.as_secs() >= 10 {
+        return res.violation("child-left-running", format!("real OS ({what}): run() returned after {:.1} s, i.e. only once the child ended by itself", took.as_secs_f64()));
+    }
+    let child_pid: Option<i32> = std::fs::read_to_string(&marker).ok().and_then(|s| s.trim().parse().ok());
+    // whatever the outcome: the child must be gone
+    if let Some(pid) = child_pid
+        && realos::pid_alive(pid)
+    {
+        unsafe { libc::kill(pid, libc::SIGKILL) };
+        return res.violation("child-left-running", format!("real OS: helper pid {pid} still alive after naija returned ({what})"));
+    }
+    let expect_err = match what {
+        "limit" => Some("Process output limit exceeded"),
+        "utf8" => Some("Process output no be valid UTF-8"),
+        "timeout" => Some("Process timeout"),
+        _ => None,
+    };
+    if let Some(e) = expect_err {
+        if run.code == 0 || !text.contains(e) {
+            return res.violation("real-wrong-outcome", format!("real OS ({what}): expected `{e}`, naija exited {} with {:?}", run.code, text.chars().take(200).collect::<String>()));
+        }
+        return res;
+    }
+    if run.code != 0 {
+        return res.violation("real-wrong-outcome", format!("real OS ({what}): naija exited {} with {:?}", run.code, text.chars().take(300).collect::<String>()));
+    }
+    let want_code = if what == "nonzero" { exit.max(1) } else { 0 };
+    let want_err: Vec<u8> = if case["err_pol"] == "capture" { stream_bytes(2, 0, n2, "ascii") } else { b"null".to_vec() };
+    let mut want: Vec<u8> = format!("{want_code}\n").into_bytes();
+    want.extend_from_slice(&want_err);
+    want.push(b'\n');
+    want.extend_from_slice(&want_out);
+    want.push(b'\n');
+    if out != want {
+        let k = out.iter().zip(want.iter()).position(|(a, b)| a != b).unwrap_or(out.len().min(want.len()));
+        return res.violation("truncated", format!("real OS ({what}): naija printed {} bytes, expected {} (first difference at byte {k})", out.len(), want.len()));
+    }
+    res
 }
